@@ -105,6 +105,7 @@ fn coverage_keys(scn: &Scenario, cov: &mut BTreeMap<String, u64>) {
                     TSpec::Shared(_) => "shared".to_string(),
                     TSpec::Own { kind, poison, .. } => format!("{}own-{:?}", if *poison { "poisonable-" } else { "" }, kind),
                     TSpec::Tagged(..) => "tagged".to_string(),
+                    TSpec::Group { .. } => "group".to_string(),
                     TSpec::OnData { kind, poison, from, .. } => format!("{}{}-{:?}", if *poison { "poisonable-" } else { "" }, if *from { "from" } else if *kind == CollKind::Ref { "new" } else { "new_ref" }, kind),
                 };
                 *cov.entry(format!("{}/{:?}", kind, a.api)).or_insert(0) += 1;
@@ -273,6 +274,9 @@ fn main() {
     let get = |k: &str| -> Option<String> { args.iter().position(|a| a == k).and_then(|i| args.get(i + 1).cloned()) };
     match args.get(1).map(|s| s.as_str()) {
         Some("batch") => {
+            if get("--tier").as_deref() == Some("thorough") {
+                gen::THOROUGH.store(true, std::sync::atomic::Ordering::Relaxed);
+            }
             let prop = get("--prop").expect("--prop");
             let seed: u64 = get("--seed").map(|s| s.parse().unwrap()).unwrap_or(20260927);
             let start: u64 = get("--start").map(|s| s.parse().unwrap()).unwrap_or(0);
